@@ -247,6 +247,14 @@ def scenarios():
     S["receive_pack(server handler)"] = _receive_pack_server(False)
     S["receive_pack(server handler, atomic)"] = _receive_pack_server(True)
 
+    def deepen(r):
+        # a shallow clone (see PREP) is deepened by one commit over the wire protocol (C git's upload-pack as a
+        # subprocess): the new boundary must not be recorded before the objects above it are installed
+        from dulwich.client import SubprocessGitClient
+        src = os.path.join(os.path.dirname(r.path.rstrip("/")), "deepsrc")
+        SubprocessGitClient().fetch(src, r, depth=2)
+    S["fetch(deepen a shallow clone)"] = deepen
+
     def fetch_into(r):
         from dulwich import porcelain
         src, c, head = _source_with_new_commit(r)
@@ -307,7 +315,35 @@ def _prep_shadow(r):
     r.refs[b"refs/heads/topic"] = r.refs[b"refs/heads/master"]
 
 
-PREP = {"del_ref(loose shadows packed)": _prep_shadow}
+def _prep_shallow(r):
+    """turn the repository into a depth-1 clone of a copy of itself kept next to it"""
+    import shutil as _sh
+    from dulwich.client import SubprocessGitClient
+    from dulwich.repo import Repo
+    root = r.path.rstrip("/")
+    src = os.path.join(os.path.dirname(root), "deepsrc")
+    _sh.copytree(root, src, symlinks=True)
+    g = os.path.join(root, ".git")
+    _sh.rmtree(os.path.join(g, "objects"))
+    os.makedirs(os.path.join(g, "objects", "pack"))
+    os.makedirs(os.path.join(g, "objects", "info"))
+    for rel in ("packed-refs", "refs/heads/master", "refs/heads/topic", "refs/tags/v1"):
+        try:
+            os.unlink(os.path.join(g, rel))
+        except FileNotFoundError:
+            pass
+    rr = Repo(root)
+    try:
+        res = SubprocessGitClient().fetch(src, rr, depth=1,
+                                          determine_wants=lambda refs, **kw: [refs[b"refs/heads/master"]])
+        rr.refs[b"refs/heads/master"] = res.refs[b"refs/heads/master"]
+    finally:
+        rr.close()
+
+
+PREP = {"del_ref(loose shadows packed)": _prep_shadow, "fetch(deepen a shallow clone)": _prep_shallow}
+# scenarios whose states are judged by the real recovery procedure only (Crash.tla has no shallow boundary)
+REAL_ONLY = {"fetch(deepen a shallow clone)"}
 
 
 # --------------------------------------------------------------------------- projection (independent of the code under test where cheap)
@@ -514,7 +550,8 @@ def recover(snap, pre_refs, post_refs, pre_objs, any_ref_value=False):
                 return f"ReachableObjectLost:{type(e).__name__}"
             if raw != raw0:
                 return "ReachableObjectChanged"
-        # closure of every ref is readable and intact
+        # closure of every ref is readable and intact (up to the shallow boundary the repository records NOW)
+        shal = shallow_of(snap)
         seen, todo = set(), [v for v in refs.values()]
         while todo:
             sha = todo.pop()
@@ -526,7 +563,7 @@ def recover(snap, pre_refs, post_refs, pre_objs, any_ref_value=False):
             except Exception as e:
                 return f"RefNamesMissingObject:{type(e).__name__}"
             if isinstance(o, Commit):
-                todo += [o.tree, *o.parents]
+                todo += [o.tree] + ([] if sha in shal else list(o.parents))
             elif isinstance(o, Tree):
                 todo += [e.sha for e in o.iteritems() if e.mode != 0o160000]
             elif isinstance(o, Tag):
@@ -670,11 +707,21 @@ class Recording:
         shutil.rmtree(self.root, ignore_errors=True)
 
 
+def shallow_of(path):
+    """the commits listed in .git/shallow (their parents are legitimately absent)"""
+    try:
+        with open(os.path.join(path, ".git", "shallow"), "rb") as f:
+            return {l.strip() for l in f.read().split(b"\n") if HEX40.match(l.strip())}
+    except FileNotFoundError:
+        return set()
+
+
 def repo_facts(path):
     """refs and the content of everything reachable (real values, for the recovery check)."""
     from dulwich.objects import Commit, Tag, Tree
     from dulwich.repo import Repo
     r = Repo(path)
+    shal = shallow_of(path)
     try:
         refs = r.refs.as_dict()
         objs, todo = {}, list(refs.values())
@@ -685,7 +732,7 @@ def repo_facts(path):
             o = r.object_store[sha]
             objs[sha] = o.as_raw_string()
             if isinstance(o, Commit):
-                todo += [o.tree, *o.parents]
+                todo += [o.tree] + ([] if sha in shal else list(o.parents))
             elif isinstance(o, Tree):
                 todo += [e.sha for e in o.iteritems() if e.mode != 0o160000]
             elif isinstance(o, Tag):
@@ -817,7 +864,8 @@ def run(ctx):
         pre = [U.oid.get(pre_refs.get(nm.encode(), b"").decode(), 0) for nm in U.refs]
         post = [U.oid.get(post_refs.get(nm.encode(), b"").decode(), 0) for nm in U.refs]
         preclo = sorted(U.oid[s.decode()] for s in pre_objs)
-        traces.append({"tid": tid, "deps": deps, "pre": pre, "post": post, "preclo": preclo, "states": states})
+        if name not in REAL_ONLY:
+            traces.append({"tid": tid, "deps": deps, "pre": pre, "post": post, "preclo": preclo, "states": states})
         meta[tid] = (name, layout, fsync)
         if tid in (1, 5):
             ctx.sample({"scenario": name, "layout": layout, "fsync": fsync,
